@@ -447,6 +447,9 @@ func TestVerifC09EnvEquivalence(t *testing.T) {
 
 	rapid.Check(t, func(t *rapid.T) {
 		m := cgGenConfDoc(t, opts)
+		for _, n := range cgUnknownTypeNotes() {
+			rec.Note(n)
+		}
 
 		var leaves []c09Leaf
 		c09Walk(m, reflect.TypeOf(Conf{}), "", nil, "", c09Ctx{expressible: true}, &leaves)
